@@ -168,6 +168,7 @@ PROPS['C16'] = {
                   'and each method body is compared as a token sequence with the one call of the proved helper (translation validation, not a proof '
                   'for all schemas). 3xx handling is outside the property.',
     'assumptions': ['reqwest 0.12 behaves as the stand-in contracts say', 'yaserde::ser::to_string / de::from_str are functions of their argument',
+                    '"the body is the response envelope" is identified with "yaserde::de::from_str accepts it" (yaserde is lenient about the root element name and trailing bytes)',
                     'Display output is a function of the value (display<T>)'],
 }
 PROPS['C07'] = {
@@ -497,7 +498,7 @@ def c13_witness(pid, fails, repo):
     if f.unit == 'W' and f.obligation.endswith('#safety'):
         # panic freedom of a writer: the fault-injection harness runs every document against a sink failing at each write index
         res = w_replay.search(repo)
-        pan = [a for a in res['anomalies'] if a['observed'] == 'PANIC']
+        pan = [a for a in res['anomalies'] if a['observed'] in ('PANIC', 'HANG')]       # panic freedom and termination
         out = {'found': bool(pan), 'write_calls_injected': res['write_calls_injected']}
         if pan:
             out['input'] = pan[0]
